@@ -81,7 +81,28 @@ def representative_values(fn, src):
     vals.add(min(consts | {0}) - 7919)
     return sorted(vals)
 
-def simulate(fn, call_ins, v, stop_calls=(), max_steps=4000, seed=None, start=None, watch=None):
+class _ResolvedCall:
+    """an indirect call whose callee was read from a constant table at a known index: looks like the call instruction, with the
+    resolved function as `callee`"""
+    def __init__(self, ins, callee):
+        self._ins, self.callee = ins, callee
+    def __getattr__(self, name):
+        return getattr(self._ins, name)
+
+def _is_constant_global(fn, name):
+    t = fn.mod.globals.get(name) or ''
+    return bool(re.match(r'^((internal|private|dso_local|unnamed_addr|local_unnamed_addr)\s+)*constant\b', t))
+
+def _table_ce(fn):
+    ce = fn.mod.__dict__.get('_table_ce')
+    if ce is None:
+        import types
+        from .consteval import ConstEval
+        ce = ConstEval(types.SimpleNamespace(mods=[]), fn.mod)
+        fn.mod._table_ce = ce
+    return ce
+
+def simulate(fn, call_ins, v, stop_calls=(), max_steps=4000, seed=None, start=None, watch=None, event_env=None):
     """follow control flow from just after call_ins (or from instruction `start`) assuming its result equals v; branches whose
     condition is determined by the known values (also through or / and / select / xor and phis) are evaluated, all others
     explored both ways.  `seed` adds SSA values known from dominating equalities.
@@ -103,6 +124,20 @@ def simulate(fn, call_ins, v, stop_calls=(), max_steps=4000, seed=None, start=No
             return 1
         if o == 'false':
             return 0
+        if o == 'null':
+            return 0              # a pointer known to be NULL on this path (merges that bring NULL in)
+        return None
+    def ptrval(o, env):
+        """pointer into a constant global: ('g', name, path) or None"""
+        if ('ptr', o) in env:
+            return env[('ptr', o)]
+        if isinstance(o, str) and (o.startswith('@') or o.startswith('getelementptr') or o.startswith('bitcast')):
+            try:
+                pv = _table_ce(fn).const_operand(o)
+            except Exception:
+                pv = None
+            if isinstance(pv, tuple) and pv[0] == 'g' and _is_constant_global(fn, pv[1]):
+                return pv
         return None
     def cond(o, env, depth=0):
         """three-valued truth of an i1 value"""
@@ -171,8 +206,36 @@ def simulate(fn, call_ins, v, stop_calls=(), max_steps=4000, seed=None, start=No
                 x = arith(ins.res, env)
                 if x is not None:
                     env[ins.res] = x
+            # constant tables: `shape = &table[pattern]; shape->n; decoders[shape->n](...)` with a known index is a known value /
+            # a known callee (table-driven dispatch is followed like a switch)
+            if ins.op in ('getelementptr', 'bitcast') and ins.res:
+                base = ptrval(ins.ops[0], env)
+                if base is not None and ins.op == 'bitcast':
+                    env[('ptr', ins.res)] = base
+                elif base is not None:
+                    idx = [arith(o, env) for o in ins.ops[1:]]
+                    if idx and all(isinstance(x_, int) for x_ in idx) and (idx[0] == 0 or base[2]):
+                        path = list(base[2])
+                        if idx[0] != 0:
+                            path[-1] += idx[0]
+                        env[('ptr', ins.res)] = ('g', base[1], tuple(path + idx[1:]))
+            elif ins.op == 'load' and ins.res:
+                pv = ptrval(ins.ops[0], env)
+                if pv is not None:
+                    try:
+                        x = _table_ce(fn).load(pv, ins)
+                    except Exception:
+                        x = None
+                    if isinstance(x, int):
+                        env[ins.res] = x
+                    elif isinstance(x, tuple) and x[0] == 'g' and x[2] == ():
+                        env[('ptr', ins.res)] = x
             if ins.op == 'call' and ins.callee in stop_calls:
                 outcomes.append(('event', ins, trail))
+                if event_env is not None:
+                    event_env.append((ins, {o_: val(o_, env) for o_ in ins.ops}))
+            elif ins.op == 'call' and (ins.callee or '').startswith('%') and ('ptr', ins.callee) in env and env[('ptr', ins.callee)][1] in stop_calls:
+                outcomes.append(('event', _ResolvedCall(ins, env[('ptr', ins.callee)][1]), trail))
             elif ins.op == 'store' and 'store' in stop_calls:
                 outcomes.append(('event', ins, trail))
         if hit:
@@ -226,7 +289,7 @@ def simulate(fn, call_ins, v, stop_calls=(), max_steps=4000, seed=None, start=No
                     nenv[k_] = x
                 else:
                     nenv.pop(k_, None)
-            key = (nb.label, tuple(sorted((k, vv) for k, vv in nenv.items())))
+            key = (nb.label, tuple(sorted(((str(k), str(vv)) for k, vv in nenv.items()))))
             if key in seen:
                 continue
             seen.add(key)
